@@ -118,6 +118,42 @@ fn vk_c20_winning_capture() {
     assert!(see(&c.game, c.mv, Eval(0)));
 }
 
+//@ obligation: C20.defended_no_backup
+//@ domain: complete
+//@ functions: engine/see.rs::see
+//@ timeout: 2400
+//@ mem_gb: 10
+//@ note: fully symbolic board, every shape-valid non-en-passant capture, threshold 0: when the captured piece IS defended (at least one enemy piece -- the king included -- attacks the target square on the occupancy after the capture) and the capturing side has NO backup at all (no other own piece bears on the target square even on an empty board, so no x-ray can appear), the exchange is exactly 'capture, recapture': the verdict is 'captured value (plus promotion gain) minus the value of the piece now standing on the square is non-negative'. In particular a lone defending king DOES recapture.
+//@ assumes: table lookups == geometry (C07); meaning of the attack set: C01.attackers.all_exact
+#[kani::proof]
+#[kani::unwind(10)]
+//@@stubs-tables
+fn vk_c20_defended_no_backup() {
+    let c = any_capture();
+    let board = &c.game.board;
+    let me = c.game.player;
+    let mut occ = board.occupancy();
+    occ ^= c.mv.src().bb();
+    occ |= c.mv.dst().bb();
+    let defenders = movegen::all_attackers_of(board, c.mv.dst(), occ) & occ & board.occupancy_for(me.other());
+    kani::assume(defenders.any());
+    let to = c.mv.dst().idx();
+    let not_mover = !c.mv.src().bb().as_u64();
+    let own = |k: PieceKind| board.pieces_of_kind(k, me).as_u64() & not_mover;
+    let backup = (geo::rook(to, 0) & (own(PieceKind::Rook) | own(PieceKind::Queen)))
+        | (geo::bishop(to, 0) & (own(PieceKind::Bishop) | own(PieceKind::Queen)))
+        | (geo::knight(to) & own(PieceKind::Knight))
+        | (geo::king(to) & own(PieceKind::King))
+        | (geo::pawn(to, me != Player::White) & own(PieceKind::Pawn));
+    kani::assume(backup == 0);
+    let got = see(&c.game, c.mv, Eval(0));
+    let gain = val(c.captured.kind) + match c.promo { Some(p) => val(p.piece()) - 100, None => 0 };
+    let standing = match c.promo { Some(p) => val(p.piece()), None => val(c.mover.kind) };
+    kani::cover!(gain < standing && defenders.count() == 1 && (defenders & board.pieces_of_kind(PieceKind::King, me.other())).any());
+    kani::cover!(gain >= standing);
+    assert!(got == (gain - standing >= 0));
+}
+
 //@ obligation: C20.canary.see
 //@ canary: true
 //@ timeout: 2400
